@@ -10,6 +10,7 @@ from cocoasm.exceptions import TranslationError, ValueTypeError
 from cocoasm.statement import Statement
 from cocoasm.values import AddressValue, NoneValue
 from cocoasm.virtualfiles.source_file import SourceFile
+from cocoasm import _verif
 
 # C L A S S E S ###############################################################
 
@@ -106,12 +107,17 @@ class Program(object):
         for index, statement in enumerate(self.statements):
             statement.translate()
 
+        _verif.emit("Translated", sizes=[s.code_pkg.size for s in self.statements],
+                    maxs=[s.code_pkg.max_size for s in self.statements], fixed=[s.fixed_size for s in self.statements])
+
         while not self.all_sizes_fixed():
             progress = False
             for index, statement in enumerate(self.statements):
                 if not statement.fixed_size:
                     statement.determine_pcr_relative_sizes(self.statements, index)
                     progress = progress or statement.fixed_size
+            _verif.emit("Sweep", progress=progress, sizes=[s.code_pkg.size for s in self.statements],
+                        fixed=[s.fixed_size for s in self.statements])
             if not progress:
                 # Every undecided span straddles the 8-bit limit: the 16-bit form can always hold the offset
                 index = next(i for i, statement in enumerate(self.statements) if not statement.fixed_size)
